@@ -47,7 +47,7 @@ func Main(id string) {
 		os.Exit(2)
 	}
 	mode := os.Args[1]
-	_ = logging.SetLogLevel("*", "fatal")
+	logging.SetAllLoggers(logging.LevelFatal)
 	if mode == "facts" {
 		if len(os.Args) < 3 {
 			os.Exit(2)
